@@ -521,9 +521,6 @@ func (rf *c01Ref) decide(m *c01E, usesP bool, effect string, eftIdx int, policy 
 	if len(rv) != len(rf.rtoks) || !rf.compiles(m) {
 		return false, false
 	}
-	if effect == "un" {
-		return false, false
-	}
 	if len(policy) != 0 && usesP {
 		matched := make([]bool, len(policy))
 		efts := make([]int, len(policy))
@@ -553,7 +550,7 @@ func (rf *c01Ref) decide(m *c01E, usesP bool, effect string, eftIdx int, policy 
 				}
 			}
 		}
-		return c01Combine(effect, matched, efts), true
+		return c01Combine(effect, matched, efts), effect != "un"
 	}
 	if rf.hasEval && len(policy) == 0 {
 		return false, false
@@ -574,5 +571,5 @@ func (rf *c01Ref) decide(m *c01E, usesP bool, effect string, eftIdx int, policy 
 	if mt {
 		e = 0
 	}
-	return c01Combine(effect, []bool{true}, []int{e}), true
+	return c01Combine(effect, []bool{true}, []int{e}), effect != "un"
 }
